@@ -16,6 +16,7 @@ import (
 	"bytes"
 	"crypto/sha256"
 	"encoding/hex"
+	"encoding/json"
 	"fmt"
 	"os"
 	"os/exec"
@@ -201,6 +202,20 @@ var c02PartStates = []c02PartState{
 	{"empty-file", []byte{}},
 }
 
+// thorough tier only
+var c02PartStatesMore = []c02PartState{
+	{"valid-prefix-10", c02Obj[:10]},
+	{"garbage-1", []byte("G")},
+	{"garbage-10", []byte("GARBAGEgar")},
+}
+
+func (h *c02H) partStates() []c02PartState {
+	if h.c.Thorough() {
+		return append(append([]c02PartState{}, c02PartStates...), c02PartStatesMore...)
+	}
+	return c02PartStates
+}
+
 type c02FinalState struct {
 	Name string
 	Data []byte
@@ -336,21 +351,12 @@ func (h *c02H) c02RunTransfersObserved(a Adapter, base *adapterBase, remote stri
 				g.panicked = fmt.Sprintf("%v\n%s", e, debug.Stack())
 			}
 		}()
-		t0dbg := time.Now()
-		defer func() {
-			if os.Getenv("C02_DEBUG") != "" {
-				fmt.Fprintf(os.Stderr, "c02 timing total=%v\n", time.Since(t0dbg))
-			}
-		}()
 		if err := a.Begin(&adapterConfig{apiClient: h.client(), concurrentTransfers: 1, remote: remote}, cb); err != nil {
 			for i := range out {
 				out[i].BeginErr = err
 				out[i].Err = err
 			}
 			return
-		}
-		if os.Getenv("C02_DEBUG") != "" {
-			fmt.Fprintf(os.Stderr, "c02 timing begin=%v\n", time.Since(t0dbg))
 		}
 		stuck := false
 		for i, t := range ts {
@@ -383,9 +389,6 @@ func (h *c02H) c02RunTransfersObserved(a Adapter, base *adapterBase, remote stri
 				}
 				return
 			}
-		}
-		if os.Getenv("C02_DEBUG") != "" {
-			fmt.Fprintf(os.Stderr, "c02 timing transfers=%v\n", time.Since(t0dbg))
 		}
 		done := make(chan struct{})
 		go func() { defer close(done); a.End() }()
@@ -549,14 +552,17 @@ func TestVerifC02(t *testing.T) {
 			fmt.Println("TOOL-ERROR cannot load replay:", err)
 			os.Exit(2)
 		}
+		if rf.Tier == "thorough" || rf.Tier == "quick" {
+			c.Tier = rf.Tier // alphabets depend on the tier the case was found in
+		}
 		for _, p := range prods {
 			if p.Scenario == rf.Scenario {
 				exec := p.Exec(h)
 				r := exec(rf.Prefix)
 				st := vx.NewStats()
 				st.Absorb(rf.Prefix, &r, 0)
-				if b, ok := r.Sample.(map[string]interface{}); ok {
-					fmt.Printf("replayed case: %v\n", b)
+				if b, err := json.MarshalIndent(r.Sample, "  ", " "); err == nil {
+					fmt.Printf("replayed case (%s, outcome %q):\n  %s\n", rf.Scenario, r.Outcome, b)
 				}
 				os.Exit(c.Finish([]vx.Part{{Scenario: rf.Scenario, Stats: st, Exec: exec}}, nil))
 			}
